@@ -25,7 +25,9 @@ type schemaMutation struct {
 	apply      func(r *rand.Rand, doc *ast.SchemaDocument) bool
 }
 
-func docDef(doc *ast.SchemaDocument, name string) *ast.Definition { return doc.Definitions.ForName(name) }
+func docDef(doc *ast.SchemaDocument, name string) *ast.Definition {
+	return doc.Definitions.ForName(name)
+}
 
 func boundaryDefs(doc *ast.SchemaDocument) []*ast.Definition {
 	var out []*ast.Definition
@@ -158,7 +160,9 @@ var schemaMutations = []schemaMutation{
 	{"svctype_interface", false, onService(func(r *rand.Rand, s *ast.Definition) bool { s.Kind = ast.Interface; return true })},
 	// ---- boundary types: the key
 	{"bnd_id_nullable", false, onBoundary(func(r *rand.Rand, d *ast.Definition) { d.Fields.ForName("id").Type = ast.NamedType("ID", nil) })},
-	{"bnd_id_type", false, onBoundary(func(r *rand.Rand, d *ast.Definition) { d.Fields.ForName("id").Type = ast.NonNullNamedType("String", nil) })},
+	{"bnd_id_type", false, onBoundary(func(r *rand.Rand, d *ast.Definition) {
+		d.Fields.ForName("id").Type = ast.NonNullNamedType("String", nil)
+	})},
 	{"bnd_id_list", false, onBoundary(func(r *rand.Rand, d *ast.Definition) {
 		d.Fields.ForName("id").Type = ast.NonNullListType(ast.NonNullNamedType("ID", nil), nil)
 	})},
@@ -178,7 +182,9 @@ var schemaMutations = []schemaMutation{
 		c.Type = ast.NonNullListType(ast.NamedType(f.Type.Name(), nil), nil)
 		q.Fields = append(q.Fields, &c)
 	})},
-	{"lookup_arg_nullable", false, onLookup(func(r *rand.Rand, q *ast.Definition, f *ast.FieldDefinition) { f.Arguments[0].Type = ast.NamedType("ID", nil) })},
+	{"lookup_arg_nullable", false, onLookup(func(r *rand.Rand, q *ast.Definition, f *ast.FieldDefinition) {
+		f.Arguments[0].Type = ast.NamedType("ID", nil)
+	})},
 	{"lookup_arg_type", false, onLookup(func(r *rand.Rand, q *ast.Definition, f *ast.FieldDefinition) {
 		f.Arguments[0].Type = ast.NonNullNamedType("String", nil)
 	})},
